@@ -6,7 +6,7 @@ M9 — model of the campaign / trigger sheet compilers
 
 Core Lean only (imported by the executable driver).  The code is followed line by line,
 quirks included:
-* the message dict is ALWAYS keyed `eng`, whatever `base_language` says (F-C19-a);
+* the message dict is keyed by the event's base language (since fix F-C19-a);
 * the `uuid` column of a campaign row is never read;
 * `if event_type == "F" and self.flow is None` can never fire (`self.flow` is always a
   `FlowReference` object), so a flow event without a flow name is accepted;
@@ -35,7 +35,6 @@ def eventTypes : List Str := ["M".toList, "F".toList]
 def trigTypes : List Str := ["K".toList, "C".toList, "M".toList, "T".toList]
 def matchTypes : List Str := ["F".toList, "O".toList, []]
 def maxKeyLen : Nat := 36
-def messageKey : Str := "eng".toList
 def defaultLang : Str := "eng".toList
 def defaultHour : Int := -1
 def evMessage : Str := "M".toList
@@ -167,7 +166,8 @@ structure Event where
 
 /-- body of the loop of `CampaignParser.parse` + `CampaignEvent.__init__` -/
 def eventOfRow (r : CampRow) : RowRes Event :=
-  let message : Option (Str × Str) := if r.message ≠ [] then some (messageKey, r.message) else none
+  let message : Option (Str × Str) :=
+    if r.message ≠ [] then some ((if r.baseLanguage ≠ [] then r.baseLanguage else defaultLang), r.message) else none
   let baseLanguage : Option Str :=
     if r.message ≠ [] then some (if r.baseLanguage ≠ [] then r.baseLanguage else defaultLang) else none
   match (if r.deliveryHour ≠ [] then pyInt r.deliveryHour else some defaultHour) with
